@@ -218,7 +218,7 @@ def plan(tier):
             d0, d1 = 3, 4
         else:
             sp['variants'] = sp['variants'][:3]
-            d0, d1 = 3, 6
+            d0, d1 = 3, (6 if name in ('chain3', 'diamond', 'mount2', 'mem') else 5)
         out.append((desc, sp, d0, d1))
     # focused deeper run on a two-task slice: inspect-then-compute-elsewhere-then-request needs five operations
     desc = get_desc('chain3')
